@@ -669,6 +669,16 @@ func c16Ops(w *world, docs map[int][]byte) []c16Op {
 		add("withoptions", fmt.Sprintf("d%d.WithOptions(optsB).Errorf", i), func() string {
 			return c16Snap(d.WithOptions(optsB...).Errorf("%[2]s then %[1]d", sharedArgs...), defs, false)
 		})
+		add("key", fmt.Sprintf("FieldConstructor.Key() of the pool keys (round %d)", i), func() string {
+			var b strings.Builder
+			for _, ki := range p1Keys {
+				if fn := keyPool[ki].KeyFn; fn != nil {
+					k := fn()
+					fmt.Fprintf(&b, "%s:%v ", c16KeyName(k), k == keyPool[ki].Key)
+				}
+			}
+			return b.String()
+		})
 		add("withoptions", fmt.Sprintf("d%d.WithOptions(Details,optsB).New", i), func() string {
 			return c16Snap(d.WithOptions(append([]errdef.Option{sharedDetails}, optsB...)...).New("det"), defs, false)
 		})
